@@ -92,7 +92,7 @@ CHECKS = {
     },
     "C17": {
         "worlds": [{"name": "halfagg", "variants": {"quick": ["ship", "asan"], "thorough": ["ship", "asan", "alt"]},
-                    "runs": {"quick": 8000, "thorough": 400000}, "secondary_share": 0.1}],
+                    "runs": {"quick": 8000, "thorough": 400000}, "secondary_share": 0.3}],
         "rule": "one run = one seeded Plan: 0..64 signed triples, a delivery schedule that determines the batch split of incremental aggregation, per-step buffer capacities, "
                 "empty batches, aggregator crashes (resume from persisted bytes), faults on triples / final aggregate / (key,msg) list; non-trivial = a fault fired and a comparison with the "
                 "half-aggregation model happened after it; distinct = distinct Plan hash",
